@@ -141,6 +141,9 @@ def produce_corpus(seed, n_xdis, n_stdlib, only_tags=None, outdir=None, workers=
     outdir = outdir or os.path.join(core.scratch_dir(), "produced")
     os.makedirs(outdir, exist_ok=True)
     simple = _list_py(os.path.join(core.REPO_DIR, "test", "simple_source"))
+    # hand-written stress programs (line gaps > 127, > 255 constants, big ints, duplicate lambdas, sets, long
+    # jumps, non-ASCII text, version-specific syntax); producers that cannot compile one simply skip it
+    simple += _list_py(os.path.join(core.VERIF_DIR, "sim", "stress_src"))
     xdis_src = _list_py(core.XDIS_DIR)
     procs = []
     for tag, exe in core.producer_pythons():
